@@ -596,7 +596,12 @@ class BaseConnector:
             self._acquired_per_host.clear()
             for keyed_waiters in self._waiters.values():
                 for keyed_waiter in keyed_waiters:
-                    keyed_waiter.cancel()
+                    # Not cancel(): nobody cancelled the waiting task, it must
+                    # see the same error as a request that already had a slot.
+                    if not keyed_waiter.done():
+                        keyed_waiter.set_exception(
+                            ClientConnectionError("Connector is closed.")
+                        )
             self._waiters.clear()
             self._cleanup_handle = None
             self._cleanup_closed_transports.clear()
